@@ -3,6 +3,7 @@
 //@ assume: T4: `Strain::process` and `Strain::cloned_difficulty_value` are replaced by stubs during verification (float pipeline); their frame - they do not write idx, the object arrays or the note counters - is assumed. Native replays run the real skill.
 //@ assume: inductive-step argument: obligations are proved from ANY state satisfying the representation invariant (objects_is_circle.len()==N, diff_objects.len()==max(N,1)-1, idx<=diff_objects.len()+1, N==0 ==> idx==0, note counters cover the first max(idx,1) objects); that `new` establishes it is not proved (needs the converters). The invariant describes calculators created without a passed_objects limit.
 //@ assume: bounded: N (number of hit objects) is fixed per harness; circle/hold flags symbolic, hold notes have zero length (the duration term of the combo is obligation U14.mania.combo_term); idx and the nth argument are fully symbolic
+//@ attr: file=src/mania/performance/gradual.rs anchor=`pub fn next(&mut self, state: ManiaScoreState)` insert=`#[cfg(kani)] pub(crate) fn __verif_from_parts(difficulty: ManiaGradualDifficulty) -> Self { Self { difficulty } }`
 use super::*;
 
 static mut LOG: [usize; 8] = [usize::MAX; 8];
@@ -164,3 +165,119 @@ h!(u12_mania_protocol_n4, step_protocol, 4);
 //@ bound: bounded: N = 3; idx, k all usize
 //@ clause: C02: one next()/nth(k) processes exactly the difficulty objects belonging to the consumed objects (object j+1 -> difficulty object j), each once and in increasing order
 h!(u12_mania_processed_n3, step_processed, 3);
+
+// ---- C03: gradual performance = one-shot performance of the partial play ------------------------------------------
+use crate::mania::performance::gradual::ManiaGradualPerformance;
+use crate::mania::performance::ManiaPerformance;
+use crate::mania::{ManiaPerformanceAttributes, ManiaScoreState};
+use crate::util::map_or_attrs::MapOrAttrs;
+
+static mut REC: Option<ManiaPerformance<'static>> = None;
+static mut REC_CALLS: u32 = 0;
+
+/// Recording replacement for `ManiaPerformance::calculate` (the float pp pipeline): keeps the builder it is called on.
+fn rec_calculate(this: ManiaPerformance<'_>) -> Result<ManiaPerformanceAttributes, crate::model::mode::ConvertError> {
+    unsafe {
+        REC_CALLS += 1;
+        REC = Some(std::mem::transmute::<ManiaPerformance<'_>, ManiaPerformance<'static>>(this));
+    }
+    Ok(ManiaPerformanceAttributes::default())
+}
+
+fn any_user_difficulty() -> Difficulty {
+    let bits: u32 = kani::any();
+    let mut d = Difficulty::new().mods(bits);
+    if kani::any() {
+        d = d.passed_objects(kani::any());
+    }
+    if kani::any() {
+        d = d.clock_rate(kani::any());
+    }
+    if kani::any() {
+        d = d.lazer(kani::any());
+    }
+    d
+}
+
+fn perf_step(n: usize) {
+    let (mut g, _) = any_state(n);
+    let total = n;
+    // the settings the caller created the gradual calculator with (possibly carrying their own passed_objects)
+    g.difficulty = any_user_difficulty();
+    let d = g.difficulty.clone();
+    let idx0 = g.idx;
+    let remaining = total - idx0;
+    let mut p = ManiaGradualPerformance::__verif_from_parts(g);
+    let state = ManiaScoreState {
+        n320: kani::any(),
+        n300: kani::any(),
+        n200: kani::any(),
+        n100: kani::any(),
+        n50: kani::any(),
+        misses: kani::any(),
+    };
+    let which: u8 = kani::any();
+    let k: usize = kani::any();
+    let (ret, consumed) = match which % 3 {
+        0 => (p.next(state.clone()), if remaining > 0 { 1 } else { 0 }),
+        1 => (p.last(state.clone()), remaining),
+        _ => (p.nth(state.clone(), k), if k < remaining { k + 1 } else { remaining }),
+    };
+    assert!(p.len() == remaining - consumed, "C15.e gradual performance processes min(n+1, remaining) objects (last: all remaining)");
+    assert!(ret.is_some() == (remaining > 0), "C15.e gradual performance returns None exactly when nothing remains");
+    unsafe {
+        if remaining == 0 {
+            assert!(REC_CALLS == 0, "C03 nothing is calculated when nothing remains");
+        } else {
+            assert!(REC_CALLS == 1, "C03 exactly one performance calculation per step");
+            let i = (idx0 + consumed) as u32;
+            match REC.take() {
+                Some(rec) => {
+                    let attrs = match &rec.map_or_attrs {
+                        MapOrAttrs::Attrs(a) => a.clone(),
+                        MapOrAttrs::Map(_) => {
+                            assert!(false, "C03 gradual performance evaluates the attributes of the prefix, not a map");
+                            return;
+                        }
+                    };
+                    assert!(attrs.n_objects == i, "C03 the evaluated attributes are those after i objects");
+                    // what a one-shot user builds: Performance(attrs).difficulty(D).passed_objects(i).state(S)
+                    let expect = ManiaPerformance::from_map_or_attrs(MapOrAttrs::Attrs(attrs))
+                        .difficulty(d)
+                        .passed_objects(i)
+                        .state(state);
+                    assert!(rec == expect, "C03 gradual performance evaluates exactly the one-shot builder: same settings, passed_objects(i), same state");
+                    std::mem::forget(rec);
+                    std::mem::forget(expect);
+                }
+                None => assert!(false, "C03 builder recorded"),
+            }
+        }
+    }
+    std::mem::forget(p);
+}
+
+macro_rules! hp {
+    ($name:ident, $n:expr) => {
+        #[kani::proof]
+        #[kani::unwind(8)]
+        #[kani::stub(<Strain as StrainSkill>::process, stub_process)]
+        #[kani::stub(<Strain as StrainSkill>::cloned_difficulty_value, stub_value)]
+        #[kani::stub(crate::mania::performance::ManiaPerformance::calculate, rec_calculate)]
+        fn $name() {
+            perf_step($n);
+        }
+    };
+}
+
+//@ obl: id=U12.mania.perf.n0 harness=u12_mania_perf_n0 stubs=yes props=C03,C15 tier=quick kind=bounded
+//@ fns: ManiaGradualPerformance::next, ManiaGradualPerformance::nth, ManiaGradualPerformance::last, ManiaGradualPerformance::len
+//@ bound: bounded: 0 objects; state position, n, the score state (all u32 fields) and the caller's Difficulty (mods bits, passed_objects, clock rate, lazer) symbolic; ManiaPerformance::calculate replaced by a recording stub
+//@ clause: C15 (e): nth(state, n) processes min(n+1, remaining) objects, last processes all remaining, next one; None exactly when nothing remains. C03: the performance builder that gets calculated equals Performance(attributes after i objects).difficulty(D).passed_objects(i).state(S) field for field, i = objects consumed so far
+hp!(u12_mania_perf_n0, 0);
+
+//@ obl: id=U12.mania.perf.n3 harness=u12_mania_perf_n3 stubs=yes props=C03,C15 tier=quick kind=bounded
+//@ fns: ManiaGradualPerformance::next, ManiaGradualPerformance::nth, ManiaGradualPerformance::last, ManiaGradualPerformance::len
+//@ bound: bounded: 3 objects; state position, n, the score state (all u32 fields) and the caller's Difficulty (mods bits, passed_objects, clock rate, lazer) symbolic; ManiaPerformance::calculate replaced by a recording stub
+//@ clause: C15 (e): nth(state, n) processes min(n+1, remaining) objects, last processes all remaining, next one; None exactly when nothing remains. C03: the performance builder that gets calculated equals Performance(attributes after i objects).difficulty(D).passed_objects(i).state(S) field for field, i = objects consumed so far
+hp!(u12_mania_perf_n3, 3);
